@@ -1,12 +1,14 @@
 # DESIGN ARTEFACT — not part of the verification machinery, not run by any check.
-# Throw-away reference semantics written while designing (see DESIGN.md, Appendix A): it
-# reproduced build() string-for-string on 33 000 random cases (default / repetition /
-# capturing-group modes, ASCII graphemes) against the unchanged library, which pins down the
-# iteration orders (petgraph newest-first, Dfs stack order, stable sorts) the Gallina model
-# must reproduce. The comparison runner it shells out to was a scratch binary and is gone.
-#!/usr/bin/env python3
-"""Throw-away reference semantics of grex's pipeline (default presentation, ASCII graphemes),
-written only to pin down iteration orders before the Gallina model. Mirrors the Rust code."""
+# Throw-away reference semantics written while designing (DESIGN.md, Appendix A.1). It reproduced
+# build() string-for-string against the unchanged library on 45 000 random cases: 33 000 in
+# default / repetition / capturing-group modes and 12 000 over the whole flag lattice (verbose,
+# colour, escape, surrogates, case-insensitive, six class flags, both anchor flags incl. the
+# self-check/fallback path, thresholds 1..3) — the only disagreement (1 case) is an input on which
+# the pinned regex crate's optimised search misses a match that Python's `re` and the crate's own
+# PikeVM find (Appendix A.6). Restriction: one code point per grapheme (no G-stage split rule).
+# It pins down the iteration orders (petgraph newest-first, Dfs stack order, stable sorts), the
+# verbose/colour rendering and the fallback control flow that the Gallina model must reproduce.
+# The comparison runner it shells out to (/tmp/proto/h) was a scratch binary and is gone.
 import sys, itertools, functools
 
 class Cfg:
@@ -99,11 +101,59 @@ def replace_with_reps(co, gs, out, cfg):
     for ng in out:
         convert_repetitions([gfrom(c) for c in ng.chars], ng.reps, cfg)
 
+# ---------- configuration (config.rs)
+class Cfg:
+    def __init__(s, rep=False, mr=1, ms=1, capture=False, escape=False, surrogates=False, verbose=False,
+                 colour=False, ci=False, no_start=False, no_end=False, d=False, w=False, sp=False, D=False, W=False, S=False):
+        s.rep=rep; s.mr=mr; s.ms=ms; s.capture=capture; s.escape=escape; s.surrogates=surrogates
+        s.verbose=verbose; s.colour=colour; s.ci=ci; s.no_start=no_start; s.no_end=no_end
+        s.d=d; s.w=w; s.sp=sp; s.D=D; s.W=W; s.S=S
+    def class_feature(s): return s.d or s.D or s.sp or s.S or s.w or s.W or s.ci or s.capture
+
+# ---------- tables (unicode_tables/*.rs), read from the source like the translator will
+import re as _re
+def _load(name):
+    src=open('/repo/src/unicode_tables/%s.rs'%name).read()
+    body=src[src.index('&['):]
+    out=[]
+    def ch(t):
+        if t.startswith('\\u{'): return int(t[3:-1],16)
+        return ord({'\\t':'\t','\\r':'\r','\\n':'\n',"\\'":"'",'\\\\':'\\'}.get(t,t))
+    for a,b in _re.findall(r"\('((?:\\u\{[0-9a-f]+\})|(?:\\.)|[^'\\])', '((?:\\u\{[0-9a-f]+\})|(?:\\.)|[^'\\])'\)", body):
+        out.append((ch(a),ch(b)))
+    return out
+DEC=_load('decimal'); WS=_load('space'); WORD=_load('word')
+def in_tab(t,c): o=ord(c); return any(a<=o<=b for a,b in t)
+def convert_classes(gs,cfg):
+    for g in gs:
+        g.chars=[''.join(
+            '\\d' if cfg.d and in_tab(DEC,c) else
+            '\\w' if cfg.w and in_tab(WORD,c) else
+            '\\s' if cfg.sp and in_tab(WS,c) else
+            '\\D' if cfg.D and not in_tab(DEC,c) else
+            '\\W' if cfg.W and not in_tab(WORD,c) else
+            '\\S' if cfg.S and not in_tab(WS,c) else c for c in s) for s in g.chars]
+
+# ---------- components (component.rs)
+def col(code,v,cfg): return "\x1b[%sm%s\x1b[0m"%(code,v) if cfg.colour else v
+def c_group(expr,cfg,final_break):
+    lp=col("1;32","(" if cfg.capture else "(?:",cfg); rp=col("1;32",")",cfg)
+    if cfg.verbose: return "\n%s\n%s\n%s"%(lp,expr,rp)+("\n" if final_break else "")
+    return lp+expr+rp
+def c_quant(q,cfg): return col("1;35",q,cfg)+("\n" if cfg.verbose else "")
+def c_rep(n,cfg,verbose): return col("104;37","{%d}"%n,cfg)+("\n" if verbose else "")
+def c_range(m,n,cfg,verbose): return col("104;37","{%d,%d}"%(m,n),cfg)+("\n" if verbose else "")
+
 # ---------- printing of graphemes (grapheme.rs)
 CHARS_TO_ESCAPE=["(", ")", "[", "]", "{", "}", "+", "*", "-", ".", "?", "|", "^", "$"]
+CHAR_CLASSES=["\\d","\\s","\\w","\\D","\\S","\\W"]
 def escape_cp(c, surr=False):
-    if ord(c)<128: return c
-    return "\\u{%x}"%ord(c)
+    o=ord(c)
+    if o<128: return c
+    if surr and 0x10000<=o<0x10ffff:          # exclusive upper bound, as in the code (F4)
+        o-=0x10000
+        return "\\u{%x}\\u{%x}"%(0xd800+(o>>10),0xdc00+(o&0x3ff))
+    return "\\u{%x}"%o
 def escape_regexp_symbols(g, cfg):
     for i in range(len(g.chars)):
         ch=g.chars[i]
@@ -112,21 +162,21 @@ def escape_regexp_symbols(g, cfg):
         if ch=="\\": ch="\\\\"
         g.chars[i]=ch
     if cfg.escape:
-        g.chars=[''.join(escape_cp(c) for c in s) for s in g.chars]
+        g.chars=[''.join(escape_cp(c,cfg.surrogates) for c in s) for s in g.chars]
 def g_char_count(g, escaped):
-    if escaped: return len(''.join(''.join(escape_cp(c) for c in s) for s in g.chars))
+    if escaped: return len(''.join(''.join(escape_cp(c,False) for c in s) for s in g.chars))
     return sum(len(s) for s in g.chars)
-def group(s,cfg): return ("(" if cfg.capture else "(?:")+s+")"
 def g_str(g, cfg):
     single = g_char_count(g,False)==1 or (len(g.chars)==1 and g.chars[0].count("\\")==1)
     is_range=g.min<g.max; is_rep=g.min>1
     v = g.value() if not g.reps else ''.join(g_str(r,cfg) for r in g.reps)
-    if not is_range and is_rep and single: return v+"{%d}"%g.min
-    if not is_range and is_rep: return group(v,cfg)+"{%d}"%g.min
-    if is_range and single: return v+"{%d,%d}"%(g.min,g.max)
-    if is_range: return group(v,cfg)+"{%d,%d}"%(g.min,g.max)
+    if cfg.colour and v in CHAR_CLASSES: v=col("103;30",v,cfg)
+    if not is_range and is_rep and single: return v+c_rep(g.min,cfg,False)
+    if not is_range and is_rep: return c_group(v,cfg,False)+c_rep(g.min,cfg,cfg.verbose)
+    if is_range and single: return v+c_range(g.min,g.max,cfg,False)
+    if is_range: return c_group(v,cfg,False)+c_range(g.min,g.max,cfg,cfg.verbose)
     return v
-
+def group(s,cfg): return c_group(s,cfg,False)
 # ---------- T: trie (dfa.rs) on a petgraph-like graph
 class Graph:
     def __init__(s): s.n=0; s.edges=[]   # edges: [src,dst,label]; insertion order
@@ -334,8 +384,8 @@ def expr_from(dfa,cfg):
                 for j in range(k): A[i][j]=union(A[i][j],concat(A[i][k],A[k][j]),cfg)
     return B[0] if n and B[0] is not None else lit([])
 
-# ---------- P: printing (format.rs, regexp.rs Display), non-verbose, no colour
-def cc_str(cs):
+# ---------- P: printing (format.rs, regexp.rs Display, indent_regexp)
+def cc_str(cs,cfg):
     esc=['[',']','\\','-','^','$']
     cs=sorted(cs)
     def e(c):
@@ -352,17 +402,20 @@ def cc_str(cs):
     out=[]
     for s in subsets:
         if len(s)<=2: out.extend(s)
-        else: out.append(s[0]+'-'+s[-1])
-    return '['+''.join(out)+']'
+        else: out.append(s[0]+col("1;36","-",cfg)+s[-1])
+    return col("1;36","[",cfg)+''.join(out)+col("1;36","]",cfg)
 def e_str(e,cfg):
     t=e[0]
-    if t=='alt': return '|'.join(e_str(o,cfg) for o in e[1])
-    if t=='cc': return cc_str(e[1])
+    if t=='alt':
+        pipe=col("1;31","|",cfg)
+        if cfg.verbose: pipe="\n"+pipe+"\n"
+        return pipe.join(e_str(o,cfg) for o in e[1])     # option precedence is never < 1
+    if t=='cc': return cc_str(e[1],cfg)
     if t=='cat':
         parts=[]
         for x in (e[1],e[2]):
             s=e_str(x,cfg)
-            parts.append(group(s,cfg) if prec(x)<2 and not single_cp(x,cfg) else s)
+            parts.append(c_group(s,cfg,True) if prec(x)<2 and not single_cp(x,cfg) else s)
         return parts[0]+parts[1]
     if t=='lit':
         out=[]
@@ -375,45 +428,137 @@ def e_str(e,cfg):
         return ''.join(out)
     if t=='rep':
         s=e_str(e[1],cfg)
-        if prec(e[1])<3 and not single_cp(e[1],cfg): return group(s,cfg)+e[2]
-        return s+e[2]
-def build(tcs,cfg):
-    tcs=sorted(set(tcs)); tcs.sort(key=lambda s:(len(s.encode()),s))
-    clusters=[[gfrom(c) for c in t] for t in tcs]
-    if cfg.rep: clusters=[convert_repetitions_top(c,cfg) for c in clusters]
+        if prec(e[1])<3 and not single_cp(e[1],cfg): return c_group(s,cfg,False)+c_quant(e[2],cfg)
+        return s+c_quant(e[2],cfg)
+VERBOSE_WS=['\xa0','\u2000','\u2001','\u2002','\u2003','\u2004','\u205f','\x85','\u1680','\u2005','\u2006','\u2007','\u2008','\u2009','\u200a','\u2028','\u2029','\u202f','\u3000']
+def regexp_str(ast,cfg):
+    if cfg.ci and cfg.verbose: flag=col("40;93","(?ix)",cfg)+"\n"
+    elif cfg.ci: flag=col("40;93","(?i)",cfg)
+    elif cfg.verbose: flag=col("40;93","(?x)",cfg)+"\n"
+    else: flag=""
+    caret="" if cfg.no_start else col("1;33","^",cfg)+("\n" if cfg.verbose else "")
+    dollar="" if cfg.no_end else ("\n" if cfg.verbose else "")+col("1;33","$",cfg)
+    body=e_str(ast,cfg)
+    if ast[0]=='alt': body=c_group(body,cfg,False)
+    r=flag+caret+body+dollar
+    r=r.replace('\x0b','\\v').replace('\x0c','\\f')
+    if cfg.verbose:
+        r=r.replace('#','\\#')
+        for c in VERBOSE_WS: r=r.replace(c,'\\s')
+        r=r.replace(' ','\\ ')
+        r=indent(r,cfg)
+    return r
+def rust_lines(s):
+    ls=s.split('\n')
+    if ls and ls[-1]=='': ls.pop()
+    return [l[:-1] if l.endswith('\r') else l for l in ls]
+def indent(r,cfg):
+    out=[]; lvl=0
+    for i,line in enumerate(rust_lines(r)):
+        if i==1 and cfg.no_start: lvl+=1
+        if line=='': continue
+        coloured=line.startswith("\x1b[")
+        if lvl>0 and ((coloured and ('$' in line or ')' in line)) or (line=="$" or line.startswith(')'))): lvl-=1
+        out.append("  "*lvl+line)
+        if (coloured and ('^' in line or (i>0 and '(' in line))) or (line=="^" or (i>0 and line.startswith('('))): lvl+=1
+    return "\n".join(out)
+
+# ---------- F: self-check and fallbacks (regexp.rs RegExp::from); Python's re stands in for the regex crate
+SGR=_re.compile("\x1b\\[(?:\\d+;\\d+|0)m")
+def to_py(p): return _re.sub(r"\\u\{([0-9a-f]+)\}", lambda m: "\\U%08x"%int(m.group(1),16), p)
+def compile_expr(ast,cfg,strip_nl=False):
+    s=e_str(ast,cfg)
+    if cfg.colour: s=SGR.sub("",s)
+    if strip_nl: s=s.replace('\n','')
+    return _re.compile(to_py(s))
+def count_matches(pat,s):          # regex crate find_iter: an empty match may not start where the last match ended
+    pos=0; last=None; n=0
+    while pos<=len(s):
+        m=pat.search(s,pos)
+        if not m: break
+        if m.start()==m.end() and last==m.end(): pos=m.end()+1; continue
+        n+=1; last=m.end(); pos=m.end()
+    return n
+def all_matched(pat,tcs): return all(count_matches(pat,t)==1 for t in tcs)
+def rotate(e):
+    def rot(a): a[1].insert(0,a[1].pop())
+    if e[0]=='alt': rot(e)
+    elif e[0]=='cat':
+        if e[1][0]=='alt': rot(e[1])
+        elif e[2][0]=='alt': rot(e[2])
+def build(tcs,cfg,segs=None):
+    if cfg.ci: tcs=[(t.lower() if len(t.lower())==len(t) else t) for t in tcs]
+    order=sorted(set(tcs)); order.sort(key=lambda s:(len(s.encode()),s))
+    clusters=[]
+    for t in order:
+        gs=[gfrom(c) for c in t]          # one code point per grapheme (alphabet restriction of this prototype)
+        if cfg.class_feature(): convert_classes(gs,cfg)
+        if cfg.rep: gs=convert_repetitions_top(gs,cfg)
+        clusters.append(gs)
     d=Dfa(cfg)
     for c in clusters: d.insert(c)
     d.minimize()
     ast=expr_from(d,cfg)
-    body=e_str(ast,cfg)
-    if ast[0]=='alt': body=group(body,cfg)
-    return ('^'+body+'$').replace('\x0b','\\v').replace('\x0c','\\f')
+    if cfg.no_start and cfg.no_end:
+        pat=compile_expr(ast,cfg,strip_nl=cfg.verbose)
+        ok=False
+        for _ in range(1,len(order)):
+            if all_matched(pat,order): ok=True; break
+            rotate(ast)                # note: the compiled regex is NOT rebuilt after a rotation (as in the code)
+        if not ok:
+            d=Dfa(cfg)
+            for c in clusters: d.insert(c)
+            ast=expr_from(d,cfg)
+            pat=compile_expr(ast,cfg)
+            if not all_matched(pat,order):
+                ast=new_alt([lit(c) for c in clusters])
+    return regexp_str(ast,cfg)
 
+def dec(r):
+    out=[]; i=0
+    while i<len(r):
+        if r[i]=='\\' and i+1<len(r):
+            out.append('\n' if r[i+1]=='n' else r[i+1]); i+=2
+        else: out.append(r[i]); i+=1
+    return ''.join(out)
 if __name__=='__main__':
     import random, subprocess
     seed=int(sys.argv[1]) if len(sys.argv)>1 else 1
     n=int(sys.argv[2]) if len(sys.argv)>2 else 2000
-    rnd=random.Random(seed)
     alpha=sys.argv[3] if len(sys.argv)>3 else "ab"
+    rnd=random.Random(seed)
     cases=[]
     for _ in range(n):
         k=rnd.randint(1,6)
         base=''.join(rnd.choice(alpha) for _ in range(rnd.randint(0,3)))
         tcs=[]
         for _ in range(k):
-            s=(base if rnd.random()<0.5 else '')+''.join(rnd.choice(alpha) for _ in range(rnd.randint(1,6)))
-            if rnd.random()<0.3: s=s+s[-rnd.randint(1,len(s)):]*rnd.randint(1,3)
+            s=(base if rnd.random()<0.5 else '')+''.join(rnd.choice(alpha) for _ in range(rnd.randint(0 if rnd.random()<0.1 else 1,6)))
+            if s and rnd.random()<0.3: s=s+s[-rnd.randint(1,len(s)):]*rnd.randint(1,3)
             tcs.append(s)
-        rep=rnd.random()<0.6
-        mr=rnd.randint(1,3); ms=rnd.randint(1,3)
-        cases.append((tcs,rep,mr,ms,rnd.random()<0.3))
-    inp=''.join((','.join((['r',f'mr{mr}',f'ms{ms}'] if rep else [])+(['g'] if cap else [])))+'\t'+'\x1f'.join(t)+'\n' for t,rep,mr,ms,cap in cases)
+        fl={}
+        for name,p in [('rep',.4),('capture',.3),('escape',.3),('verbose',.35),('colour',.25),('ci',.2),('no_start',.3),('no_end',.3),('d',.15),('w',.1),('sp',.1),('D',.05),('W',.05),('S',.05)]:
+            fl[name]=rnd.random()<p
+        fl['surrogates']=fl['escape'] and rnd.random()<0.4 and not (fl['no_start'] and fl['no_end'])
+        fl['mr']=rnd.randint(1,3); fl['ms']=rnd.randint(1,3)
+        cases.append((tcs,fl))
+    def flagstr(fl):
+        m={'rep':'r','capture':'g','verbose':'x','colour':'c','ci':'i','no_start':'ns','no_end':'ne','d':'d','w':'w','sp':'s','D':'D','W':'W','S':'S'}
+        out=[v for k,v in m.items() if fl[k]]
+        if fl['escape']: out.append('E' if fl['surrogates'] else 'e')
+        out+=['mr%d'%fl['mr'],'ms%d'%fl['ms']]
+        return ','.join(out)
+    enc=lambda t: t.replace('\n','\\n').replace('\t','\\t')
+    inp=''.join(flagstr(fl)+'\t'+'\x1f'.join(enc(t) for t in tcs)+'\n' for tcs,fl in cases)
     res=subprocess.run(['/tmp/proto/h/target/release/h'],input=inp.encode(),capture_output=True).stdout.decode().split('\n')
-    bad=0
-    for (t,rep,mr,ms,cap),r in zip(cases,res):
-        r=r.replace('\\\\','\\')
-        m=build(t,Cfg(rep,mr,ms,cap))
+    bad=0; panics=0
+    for (t,fl),r in zip(cases,res):
+        r=r.split('\t')[0]
+        if r=='PANIC': panics+=1; continue
+        r=dec(r)
+        try: m=build(t,Cfg(**fl))
+        except Exception as ex: m='EXC %r'%ex
         if m!=r:
             bad+=1
-            if bad<=10: print("DIFF",t,rep,mr,ms,cap,"\n impl ",r,"\n model",m)
-    print("cases",n,"bad",bad)
+            if bad<=6: print("DIFF",t,flagstr(fl),"\n impl ",repr(r),"\n model",repr(m))
+    print("cases",n,"bad",bad,"impl panics",panics)
